@@ -279,10 +279,12 @@ def run(ctx):
         r = p.ret
         d = dict((c[0], c[1]) for c in p.conds)
         okf = d.get(("discr", first))
+        if isinstance(okf, tuple) and okf and okf[0] == "not":
+            okf = 0 if 1 in okf[1] else (1 if 0 in okf[1] else None)      # `anything else` arm of a match on the result
         errv = d.get(("discr", ("field", ("downcast", first, "Err"), "0")))
-        if okf == 0:
+        if okf == 0 or (okf is None and d.get(("discr", first)) is None and r == first and False):
             seen.add("ok")
-            ctx.check(r[0] == "agg" and r[2] == "Ok" and dict(r[4])["0"] == ("field", ("downcast", first, "Ok"), "0"), "from_str:ok-passthrough",
+            ctx.check(r == first or (r[0] == "agg" and r[2] == "Ok" and dict(r[4])["0"] == ("field", ("downcast", first, "Ok"), "0")), "from_str:ok-passthrough",
                       "a plain-FEN success is not returned as is", loc(sb))
         elif okf == 1 and isinstance(errv, int) and icr and errv == icr[0]:
             seen.add("retry")
@@ -293,7 +295,7 @@ def run(ctx):
             # "any other error": the catch-all arm (the retried variant excluded) or an arm naming one other variant
             other_variant = (not isinstance(errv, int) and errv is not None and icr and icr[0] in errv[1]) or \
                 (isinstance(errv, int) and icr and errv != icr[0])
-            ctx.check(r[0] == "agg" and r[2] == "Err" and dict(r[4])["0"] == ("field", ("downcast", first, "Err"), "0") and other_variant,
+            ctx.check((r == first or (r[0] == "agg" and r[2] == "Err" and dict(r[4])["0"] == ("field", ("downcast", first, "Err"), "0"))) and other_variant,
                       "from_str:other-errors-passthrough",
                       "an error other than InvalidCastlingRights is not passed through unchanged", loc(sb))
         else:
